@@ -103,6 +103,29 @@ def trust (c : Cfg) (ip : IP) : Bool :=
   (c.loopback && isLoopback ip) || (c.linkLocal && isLinkLocal ip) ||
     (c.privateNet && isPrivate ip) || c.extra.any (fun n => contains n ip)
 
+/-! ## trust options (`TrustOption`, `newIPChecker`) -/
+
+/-- the four `TrustOption` constructors of ip.go -/
+inductive TrustOpt where
+  | loopback (v : Bool)     -- `TrustLoopback(v)`
+  | linkLocal (v : Bool)    -- `TrustLinkLocal(v)`
+  | privateNet (v : Bool)   -- `TrustPrivateNet(v)`
+  | range (n : IPNet)       -- `TrustIPRange(n)`
+deriving Repr, Inhabited
+
+/-- one `configure(checker)` call: a flag option overwrites its flag, a range option appends -/
+def applyOpt (c : Cfg) : TrustOpt → Cfg
+  | .loopback v => { c with loopback := v }
+  | .linkLocal v => { c with linkLocal := v }
+  | .privateNet v => { c with privateNet := v }
+  | .range n => { c with extra := c.extra ++ [n] }
+
+/-- `&ipChecker{trustLoopback: true, trustLinkLocal: true, trustPrivateNet: true}` -/
+def defaultCfg : Cfg := ⟨true, true, true, []⟩
+
+/-- `newIPChecker(configs)`: the options are applied in the order given -/
+def newChecker (opts : List TrustOpt) : Cfg := opts.foldl applyOpt defaultCfg
+
 /-! ## strings -/
 
 def isAsciiSpace (c : Char) : Bool :=
@@ -319,12 +342,20 @@ def pNet : P IPNet := do
   let m ← pIP
   pure ⟨i, m⟩
 
+def pOpt : P TrustOpt := do
+  let k ← nat
+  match k with
+  | 0 => do let v ← bool; pure (.loopback v)
+  | 1 => do let v ← bool; pure (.linkLocal v)
+  | 2 => do let v ← bool; pure (.privateNet v)
+  | 3 => do let n ← pNet; pure (.range n)
+  | _ => failure
+
+/-- the configuration is sent as the list of options in the order they were passed to the
+    extractor constructor -/
 def pCfg : P Cfg := do
-  let a ← bool
-  let b ← bool
-  let c ← bool
-  let n ← list pNet
-  pure ⟨a, b, c, n⟩
+  let os ← list pOpt
+  pure (newChecker os)
 
 def pReq : P Req := do
   let r ← str
